@@ -100,8 +100,20 @@ let () =
           margin := infinity; pstate := pert * 7919 + 1;
           let fo = nat_of_int (maxit + 2) and fi = nat_of_int 64 in
           let additive = (algo = 3) in
-          let r = if bounded then lm_bounded ops cost grad hess solve norm2 isfinite ofnat fo fi s additive lo hi x0 (-1.0) infinity
-                  else lm_unbounded ops cost grad hess solve norm2 isfinite ofnat fo fi s additive x0 (-1.0) in
+          let r =
+            if algo >= 3 then
+              (if bounded then lm_bounded ops cost grad hess solve norm2 isfinite ofnat fo fi s additive lo hi x0 (-1.0) infinity
+               else lm_unbounded ops cost grad hess solve norm2 isfinite ofnat fo fi s additive x0 (-1.0))
+            else begin
+              (* conjugate gradient (1 Polak-Ribiere, 2 Fletcher-Reeves): no linear solver; the rounding perturbation, if any, is
+                 applied to the norm of the search direction *)
+              let norm2p v = let r = norm2 v in if pert = 0 then r else r *. (1.0 +. pnext ()) in
+              let k = { c1_1 = 1.1; c10 = 10.0; c5 = 5.0; c2 = 2.0; c3 = 3.0; c0_95 = 0.95; c0_05 = 0.05; cbig = max_float; ceps4 = 4.0 *. epsilon_float } in
+              let gs = { g_max_it = z_of_int maxit; g_max_step = float_of_string maxstep; g_thr = float_of_string thr; g_ensure = z_of_int (int_of_string ens);
+                         g_max_ls = nat_of_int 10; g_armijo = 1.0e-4; g_curv = 0.1 } in
+              if bounded then cg_bounded ops cost grad norm2p sqrt isfinite fo gs k (algo = 2) lo hi x0 (-1.0) infinity
+              else cg_unbounded ops cost grad norm2p sqrt isfinite fo gs k (algo = 2) x0 (-1.0) infinity
+            end in
           let states = List.filter_map (function EvCost x -> Some x | EvCostGradHess x -> Some x | EvProgress _ -> None) r.r_log in
           Printf.printf "R %d %d %d | %s %s %s | %s | %.3e | E%s\n" (int_of_z (status_code r.r_status)) (int_of_z r.r_iter) (int_of_z r.r_samples)
             (fstr r.r_cost) (fstr r.r_start_cost) (fstr r.r_gnorm) (String.concat " " (List.map fstr r.r_x)) !margin
